@@ -419,6 +419,28 @@ def apply_ghost(text, label, ghost, report):
                 continue
             kw_i, brace_i, kw = marked_loop(k)
             text = text[:brace_i].rstrip() + "\n" + "\n".join(tag(body)) + "\n" + text[brace_i:]
+    for kind, arg, body in secs:
+        if kind == "arm":
+            # @@ f arm <path> top|last : structural anchors inside nested match arms
+            path, where = arg.split()
+            bo_, be_ = arm_by_path(text, path, label)
+            if where == "top":
+                at = bo_ + 1
+            else:
+                # before the tail expression of the block: after the last ';' or '}' statement end at depth 0
+                msk_ = rustlex.mask(text)
+                depth, k, last = 0, bo_ + 1, bo_ + 1
+                while k < be_:
+                    ch = msk_[k]
+                    if ch in "{([":
+                        depth += 1
+                    elif ch in "})]":
+                        depth -= 1
+                    elif ch == ";" and depth == 0:
+                        last = k + 1
+                    k += 1
+                at = last
+            text = text[:at] + "\n" + "\n".join(tag(["    " + l for l in body])) + "\n" + text[at:]
     for kind, arg, body in reversed(secs):   # reversed: each insertion goes to the front, file order is kept
         if kind == "top":
             # first thing in the function body (structural anchor: survives edits to the first statement)
@@ -504,6 +526,64 @@ def top_match_arms(text):
                 continue
         k += 1
     return arms
+
+
+def block_arms(msk, bo, be):
+    """(open, close) of every block-bodied arm of the first `match` found at depth 0 inside the block msk[bo:be]."""
+    depth, k, mpos = 0, bo + 1, None
+    while k < be:
+        ch = msk[k]
+        if ch in "{([":
+            depth += 1
+        elif ch in "})]":
+            depth -= 1
+        elif depth == 0 and re.match(r"match\b", msk[k:]) and not (msk[k - 1].isalnum() or msk[k - 1] == "_"):
+            mpos = k
+            break
+        k += 1
+    if mpos is None:
+        return []
+    depth, k = 0, mpos + 5
+    while msk[k] != "{" or depth:
+        if msk[k] in "([":
+            depth += 1
+        elif msk[k] in ")]":
+            depth -= 1
+        k += 1
+    mo, mc = k, rustlex.match_brace(msk, k)
+    arms, depth, k = [], 0, mo + 1
+    while k < mc:
+        ch = msk[k]
+        if ch in "{([":
+            depth += 1
+        elif ch in "})]":
+            depth -= 1
+        elif depth == 0 and msk.startswith("=>", k):
+            j = k + 2
+            while msk[j] in " \t\n":
+                j += 1
+            if msk[j] == "{":
+                c = rustlex.match_brace(msk, j)
+                arms.append((j, c))
+                k = c + 1
+                continue
+        k += 1
+    return arms
+
+
+def arm_by_path(text, path, label):
+    """block (open, close) addressed by a path like '2/3': block arm 2 of the function's top-level match, then
+    block arm 3 of the first match inside it."""
+    msk = rustlex.mask(text)
+    bo = body_or_semi(text)
+    be = rustlex.match_brace(msk, bo)
+    for part in path.split("/"):
+        arms = block_arms(msk, bo, be)
+        n = int(part)
+        if n > len(arms):
+            raise Undecided("lost anchor in %s: arm path %s (only %d block arms)" % (label, path, len(arms)))
+        bo, be = arms[n - 1]
+    return bo, be
 
 
 def apply_armsplit(text, live):
